@@ -7,79 +7,114 @@ from .core import call_name, dotted, walk_shallow, walk_body, unparse, AnchorMis
 
 
 def _encoder_alphabet(prog):
-    """(S, Q) from common._components_to_path's return expression, or raises AnchorMissing/returns (None, why)."""
+    """(FuncInfo, (S, Q) or None, reason).  The encoder is put in normal form and compared, for every combination of absent (None),
+    empty and non-empty group / channel names, with  S + S.join(Q + name.replace(Q, QQ) + Q  for each name that is not None)."""
+    from .sym import Sym, show
+    from .sem import match, W, enumerate_list, optional_string_oracle
     fi = prog.func("common._components_to_path")
-    rets = [n for n in walk_body(fi.node) if isinstance(n, ast.Return)]
-    if len(rets) != 1:
-        return fi, None, "expected one return"
-    e = rets[0].value
-    # S + S.join([Q + c.replace(Q, QQ) + Q for c in components])
-    if not (isinstance(e, ast.BinOp) and isinstance(e.op, ast.Add) and isinstance(e.left, ast.Constant) and isinstance(e.left.value, str)):
-        return fi, None, "result is not <separator> + <joined components>"
-    S = e.left.value
-    j = e.right
-    if not (isinstance(j, ast.Call) and isinstance(j.func, ast.Attribute) and j.func.attr == "join" and isinstance(j.func.value, ast.Constant) and j.args):
-        return fi, None, "components are not joined with a constant separator"
-    if j.func.value.value != S:
-        return fi, None, "prefix %r and join separator %r differ" % (S, j.func.value.value)
-    comp = j.args[0]
-    if not isinstance(comp, (ast.ListComp, ast.GeneratorExp)):
-        return fi, None, "components are not mapped one by one"
-    elt = comp.elt
-    var = comp.generators[0].target.id if isinstance(comp.generators[0].target, ast.Name) else None
-    # Q + c.replace(Q, QQ) + Q
-    if not (isinstance(elt, ast.BinOp) and isinstance(elt.op, ast.Add) and isinstance(elt.right, ast.Constant)
-            and isinstance(elt.left, ast.BinOp) and isinstance(elt.left.op, ast.Add) and isinstance(elt.left.left, ast.Constant)):
-        return fi, None, "a component is not wrapped as quote + escaped + quote"
-    Q = elt.left.left.value
-    mid = elt.left.right
-    if elt.right.value != Q:
-        return fi, None, "opening quote %r and closing quote %r differ" % (Q, elt.right.value)
-    if not (isinstance(mid, ast.Call) and isinstance(mid.func, ast.Attribute) and mid.func.attr == "replace" and dotted(mid.func.value) == var
-            and len(mid.args) == 2 and all(isinstance(a, ast.Constant) for a in mid.args)):
-        return fi, None, "the component is inserted without doubling its quotes (`%s`)" % unparse(mid)
-    if mid.args[0].value != Q or mid.args[1].value != Q + Q:
-        return fi, None, "replace(%r, %r) does not double the quote character %r" % (mid.args[0].value, mid.args[1].value, Q)
-    if comp.generators[0].ifs:
-        return fi, None, "components are filtered while being encoded (`%s`)" % unparse(comp.generators[0].ifs[0])
+    v = Sym(prog, fi, None).function_value()
+    b = match(("binop", "+", (("const", W("S")), ("method", "join", ("const", W("S2")), (W("seq"),), ()))), v)
+    if b is None:
+        return fi, None, "result `%s` is not <separator> + <separator>.join(<components>)" % show(v)[:120]
+    S = b["S"]
+    if b["S2"] != S:
+        return fi, None, "prefix %r and join separator %r differ" % (S, b["S2"])
+    params = [("param", p) for p in fi.params]
+    Q = None
+    for vals in [(g, c) for g in (None, "", "x") for c in (None, "", "x")]:
+        assign = dict(zip(params, vals))
+        lst = enumerate_list(b["seq"], optional_string_oracle(assign))
+        if lst is None:
+            return fi, "?", "component list `%s` not understood" % show(b["seq"])[:160]
+        want_names = [p for p, val in zip(params, vals) if val is not None]
+        if len(lst) != len(want_names):
+            dropped = [p[1] + ("=''" if val == "" else "") for p, val in zip(params, vals) if val is not None]
+            return fi, None, "for %s the encoder emits %d component(s) instead of %d: a name that is an empty string (or otherwise falsy) is dropped, so " \
+                "group '' / channel '' alias the root or the group" % (", ".join(dropped) or "no names", len(lst), len(want_names))
+        for elt, p in zip(lst, want_names):
+            e = match(("binop", "+", (("binop", "+", (("const", W("Q")), W("mid"))), ("const", W("Q2")))), elt)
+            if e is None:
+                return fi, None, "a component is not wrapped as quote + escaped + quote: `%s`" % show(elt)[:100]
+            if e["Q"] != e["Q2"]:
+                return fi, None, "opening quote %r and closing quote %r differ" % (e["Q"], e["Q2"])
+            Q = e["Q"]
+            m = match(("method", "replace", W("x"), (("const", W("a")), ("const", W("b"))), ()), e["mid"])
+            if m is None:
+                return fi, None, "the component is inserted without doubling its quotes (`%s`)" % show(e["mid"])[:100]
+            if m["x"] != p:
+                return fi, None, "component %s is encoded from `%s`" % (p[1], show(m["x"]))
+            if m["a"] != Q or m["b"] != Q + Q:
+                return fi, None, "replace(%r, %r) does not double the quote character %r" % (m["a"], m["b"], Q)
     return fi, (S, Q), "ok"
 
 
 @rule("PT1", "names reach object-path strings only through the quote-doubling encoder", floor=9)
 def pt1(ctx, R):
+    from .kinds import NAME, PATH, OBJ
+    from .sym import Sym, eval_cond, show
+    from .sem import optional_string_oracle
     prog = ctx.prog
     fi, alpha, why = _encoder_alphabet(prog)
-    R.check(alpha is not None and alpha == ("/", "'"), "common._components_to_path::encoder", fi.where(),
-            "'/' + '/'.join(\"'\" + c.replace(\"'\", \"''\") + \"'\")", "the path encoder lost its shape: %s" % why)
-    producers = {
-        "common.ObjectPath.__init__": ("self._path", "_components_to_path(self.group, self.channel)"),
-        "common.ObjectPath.__str__": ("return", "self._path"),
-        "common.ObjectPath.group_path": ("return", "_components_to_path(self.group, None)"),
-        "writer.RootObject.path": ("return", "'/'"),
-        "writer.GroupObject.path": ("return", "str(ObjectPath(self.group))"),
-        "writer.ChannelObject.path": ("return", "str(ObjectPath(self.group, self.channel))"),
-        "tdms.TdmsGroup.path": ("return", "str(self._path)"),
-        "tdms.TdmsChannel.path": ("return", "str(self._path)"),
-    }
-    for q, (kind, want) in sorted(producers.items()):
+    if alpha == "?":
+        R.undecided("common._components_to_path::encoder", fi.where(), why)
+    else:
+        R.check(alpha is not None and alpha == ("/", "'"), "common._components_to_path::encoder", fi.where(),
+                "'/' + '/'.join(\"'\" + c.replace(\"'\", \"''\") + \"'\") over the names that are not None", "the path encoder lost its shape: %s" % why)
+    # every producer of an object path yields a PATH: the kind that only the encoder, str(ObjectPath) and the root literal create
+    K = ctx.kinds()
+    producers = ["common.ObjectPath.__str__", "common.ObjectPath.group_path", "writer.RootObject.path", "writer.GroupObject.path",
+                 "writer.ChannelObject.path", "tdms.TdmsGroup.path", "tdms.TdmsChannel.path"]
+    for q in producers:
         f = prog.func(q)
-        if kind == "return":
-            got = [unparse(n.value) for n in walk_body(f.node) if isinstance(n, ast.Return) and n.value is not None]
+        node = K.names.get(("r", q))
+        got = K.kind(node) if node is not None else None
+        if got is None:
+            formats = any(isinstance(n, (ast.JoinedStr,)) or (isinstance(n, ast.BinOp) and isinstance(n.op, (ast.Mod, ast.Add)) and any(
+                isinstance(x, ast.Constant) and isinstance(x.value, str) for x in (n.left, n.right))) or (
+                isinstance(n, ast.Call) and isinstance(n.func, ast.Attribute) and n.func.attr in ("format", "join")) for n in ast.walk(f.node))
+            if formats:
+                R.violation(q, f.where(), "the object path is produced by string formatting instead of the shared encoder: names containing quotes or "
+                            "slashes are no longer escaped consistently")
+            else:
+                R.undecided(q, f.where(), "kind of the result not inferred")
         else:
-            got = [unparse(n.value) for n in walk_body(f.node) if isinstance(n, ast.Assign) and any(dotted(t) == kind for t in n.targets)]
-        R.check(got == [want], q, f.where(), "path produced by %s" % want,
-                "the object path is produced by %s instead of the shared encoder (%s): names containing quotes or slashes are no longer escaped "
-                "consistently" % (got, want))
-    # ObjectPath keeps the names it was given
+            R.check(got == PATH, q, f.where(), "yields a PATH (encoder result / str of an ObjectPath / root literal)",
+                    "yields a %s, not an encoded object path" % got)
+    # ObjectPath keeps the names it was given: its fields are unified with the components passed in, i.e. stored unchanged
     init = prog.func("common.ObjectPath.__init__")
-    t = unparse(init.node)
-    R.check("self.group = path_components[0]" in t and "self.channel = path_components[1]" in t, "common.ObjectPath.__init__::components kept", init.where(),
-            "group/channel are the given components, unchanged", "the names stored differ from the components given")
-    for q, want in (("common.ObjectPath.is_root", "self.group is None"), ("common.ObjectPath.is_group", "self.group is not None and self.channel is None"),
-                    ("common.ObjectPath.is_channel", "self.channel is not None")):
-        f = prog.func(q)
-        got = [unparse(n.value) for n in walk_body(f.node) if isinstance(n, ast.Return)]
-        R.check(got == [want], q, f.where(), want, "`%s` (truthiness instead of `is None` treats the empty name as absent)" % got)
+    va = init.node.args.vararg
+    comp = K.child(K.names[("v", init.qual, va.arg)], "k") if va is not None and ("v", init.qual, va.arg) in K.names else None
+    pc = prog.cls("common.ObjectPath")
+    for attr in ("group", "channel"):
+        fn = K.field_node(pc, attr)
+        ok = comp is not None and fn is not None and K.find(fn) == K.find(comp)
+        R.check(ok, "common.ObjectPath.__init__::%s kept" % attr, init.where(), "%s is one of the given components, unchanged" % attr,
+                "the %s stored differs from the component given (it is transformed or comes from elsewhere)" % attr)
+    # the kind predicates distinguish absent (None) from empty names
+    G, C = ("self", "group"), ("self", "channel")
+    truth = {"is_root": lambda g, c: g is None, "is_group": lambda g, c: g is not None and c is None, "is_channel": lambda g, c: c is not None}
+    for name, want in truth.items():
+        f = prog.func("common.ObjectPath." + name)
+        v = Sym(prog, f, f.cls).function_value()
+        bad = None
+        unknown = False
+        for g in (None, "", "x"):
+            for c in (None, "", "x"):
+                if g is None and c is not None:
+                    continue
+                r = eval_cond(v, optional_string_oracle({G: g, C: c}))
+                if r is None:
+                    unknown = True
+                elif bool(r) != want(g, c):
+                    bad = (g, c, r)
+        q = "common.ObjectPath." + name
+        if bad:
+            R.violation(q, f.where(), "`%s` is %s for group=%r, channel=%r: truthiness instead of `is None` treats the empty name as absent" % (
+                show(v)[:80], bad[2], bad[0], bad[1]))
+        elif unknown:
+            R.undecided(q, f.where(), "predicate `%s` not decided" % show(v)[:80])
+        else:
+            R.ok(q, f.where(), show(v)[:80])
     # no other code formats a path by hand
     for mod in prog.modules.values():
         for n in ast.walk(mod.tree):
@@ -100,84 +135,197 @@ def pt1(ctx, R):
 
 @rule("PT2", "object paths are never parsed ad hoc (split / strip / positional slicing)", floor=2)
 def pt2(ctx, R):
+    """Uses the inferred string kinds: a str method that takes a string apart (or alters it), or a slice, applied to a value
+    inferred to be an object PATH or an object NAME, outside the encoder/decoder of common.py."""
+    from .kinds import NAME, PATH
+    from .region import call_reaches
     prog = ctx.prog
-
-    def pathish(e):
-        d = dotted(e) or ""
-        leaf = d.split(".")[-1]
-        return "path" in leaf.lower() or (isinstance(e, ast.Call) and call_name(e) in ("str",) and e.args and "path" in unparse(e.args[0]).lower())
+    K = ctx.kinds()
     n_sites = 0
-    for fi in sorted(prog.functions.values(), key=lambda f: f.qual):
-        if fi.module.name in ("common",):
-            continue
-        for n in walk_body(fi.node):
-            if isinstance(n, ast.Call) and isinstance(n.func, ast.Attribute) and n.func.attr in ("split", "rsplit", "strip", "lstrip", "rstrip", "partition", "rpartition") \
-                    and pathish(n.func.value) and fi.module.name not in ("export.hdf_export", "export.pandas_export"):
-                n_sites += 1
-                R.violation("%s::%s" % (fi.qual, unparse(n)[:50]), fi.where(n), "an object path is taken apart with str.%s: quotes and slashes inside names are "
-                            "not separators; names must come from ObjectPath.from_string" % n.func.attr)
-            if isinstance(n, ast.Subscript) and isinstance(n.slice, ast.Slice) and isinstance(n.slice.lower, ast.Constant) and n.slice.lower.value in (1, 2) \
-                    and isinstance(n.slice.upper, ast.UnaryOp) and isinstance(n.slice.upper.op, ast.USub) and isinstance(n.slice.upper.operand, ast.Constant) \
-                    and n.slice.upper.operand.value == 1 and fi.module.name in ("writer", "tdms", "reader", "tdmsinfo", "tdms_segment"):
-                n_sites += 1
-                R.violation("%s::%s" % (fi.qual, unparse(n)[:50]), fi.where(n), "`%s` strips delimiter characters by position: if this is an object path, doubled "
-                            "quotes inside the name are not undone and the name changes" % unparse(n))
-    # names are obtained from paths only through ObjectPath.from_string
+    TAKE_APART = ("split", "rsplit", "strip", "lstrip", "rstrip", "partition", "rpartition", "slice", "splitlines", "find", "index", "rfind")
+    ALTER = ("strip", "lstrip", "rstrip", "lower", "upper", "replace", "title", "casefold", "translate", "capitalize", "swapcase", "expandtabs", "slice")
+    for fi, c, recv, m in K.parses:
+        k = K.kind(recv)
+        if k == PATH and m in TAKE_APART:
+            n_sites += 1
+            R.violation("%s::%s" % (fi.qual, unparse(c)[:50]), fi.where(c), "an object path is taken apart with %s (`%s`): quotes and slashes inside names are "
+                        "not separators and doubled quotes are not undone; names must come from ObjectPath.from_string" % (
+                            "a positional slice" if m == "slice" else "str.%s" % m, unparse(c)[:60]))
+        elif k == NAME and m in ALTER:
+            n_sites += 1
+            R.violation("%s::%s" % (fi.qual, unparse(c)[:50]), fi.where(c), "an object name is altered with %s (`%s`): names are arbitrary strings and must be "
+                        "written, looked up and reported unchanged" % ("a positional slice" if m == "slice" else "str.%s" % m, unparse(c)[:60]))
+    # names are obtained from paths only through the decoder: ObjectPath.from_string hands the string to the decoder and builds the
+    # ObjectPath from exactly the decoded components
     fs = prog.func("common.ObjectPath.from_string")
-    t = unparse(fs.node)
-    R.check("_path_components(path_string)" in t and "ObjectPath(*components)" in t, "common.ObjectPath.from_string", fs.where(),
-            "decodes with the character scanner", "from_string no longer uses _path_components")
-    users = [f.qual for f in prog.functions.values() if any(isinstance(c, ast.Call) and call_name(c) == "ObjectPath.from_string" for c in walk_body(f.node))]
-    R.check({"tdms.TdmsFile._read_file", "writer.TdmsWriter.write_segment"} <= set(users), "ObjectPath.from_string::users", fs.where(),
-            "reader hierarchy and writer both decode through from_string", "from_string is used by %s" % users)
-    R.note("ad-hoc path parsing sites found: %d" % n_sites)
+    dec = K.decoder
+    rnode = K.names.get(("r", fs.qual))
+    pnode = K.names.get(("v", fs.qual, [p for p in fs.params if p not in ("cls", "self")][0]))
+    R.check(K.kind(pnode) == PATH and K.kind(rnode) == "OBJ", "common.ObjectPath.from_string", fs.where(),
+            "takes a PATH, returns an ObjectPath built from the decoder's components", "from_string no longer decodes with %s (parameter kind %s, result kind %s)" % (
+                dec.qual, K.kind(pnode), K.kind(rnode)))
+    init = prog.func("common.ObjectPath.__init__")
+    va = init.node.args.vararg
+    comp = K.child(K.names.get(("v", init.qual, va.arg)), "k") if va is not None and ("v", init.qual, va.arg) in K.names else None
+    same = comp is not None and K.find(comp) == K.find(K.child(K.names[("r", dec.qual)], "k"))
+    R.check(same, "common.ObjectPath.from_string::components", fs.where(), "the decoded components are the names of the ObjectPath, unchanged",
+            "the components given to ObjectPath are not the decoder's output unchanged")
+    cg = ctx.callgraph()
+    users = []
+    for q in ("tdms.TdmsFile._read_file", "writer.TdmsWriter.write_segment"):
+        f = prog.func(q)
+        if any(call_reaches(ctx, f, c, {fs.qual}) for c in walk_body(f.node) if isinstance(c, ast.Call)):
+            users.append(q)
+    R.check(len(users) == 2, "ObjectPath.from_string::users", fs.where(),
+            "reader hierarchy and writer both decode through from_string", "from_string is reached from %s only" % users)
+    R.note("ad-hoc path parsing sites found: %d; string take-apart/alter calls seen: %d" % (n_sites, len(K.parses)))
 
 
 @rule("PT3", "the path scanner and the encoder use the same alphabet and the scanner consumes doubled quotes as one", floor=5)
 def pt3(ctx, R):
+    """The decoder (common._path_components and the helpers it calls) is examined for the facts every correct scanner of this
+    grammar needs, whatever its loop structure: it compares characters with exactly the encoder's separator and quote; it
+    looks at (character, next character) pairs and does not split on a separator pattern; the statement that emits a quote
+    character into the name runs exactly when the current and the next character are both quotes, and consumes the second one;
+    the statement that ends a component runs when the current character is a quote and the next one is not."""
+    from .sym import Sym, eval_cond, show
+    from .sem import module_region, find, W
     prog = ctx.prog
     fi, alpha, why = _encoder_alphabet(prog)
-    if alpha is None:
+    if alpha is None or alpha == "?":
         R.undecided("common._components_to_path", fi.where(), "encoder not understood: %s" % why)
         alpha = ("/", "'")
     S, Q = alpha
     pc = prog.func("common._path_components")
-    consts = {n.value for n in ast.walk(pc.node) if isinstance(n, ast.Constant) and isinstance(n.value, str) and len(n.value) == 1}
+    region = module_region(prog, pc)
+    consts = {n.value for f in region for n in ast.walk(f.node) if isinstance(n, ast.Constant) and isinstance(n.value, str) and len(n.value) == 1
+              and not _in_raise(f, n)}
     R.check(consts == {S, Q}, "common._path_components::alphabet", pc.where(), "scanner compares with %r and %r only" % (S, Q),
             "scanner alphabet %s differs from the encoder's separator %r and quote %r" % (sorted(consts), S, Q))
-    src = unparse(pc.node)
-    R.check(".split(" not in src and "zip_longest(path, path[1:])" in src, "common._path_components::character-pair scanner", pc.where(),
-            "scans (char, next_char) pairs", "the decoder is not the character-pair scanner (e.g. it splits on a separator pattern): a quote next to a slash "
-            "inside a name is then taken for a component boundary")
-    # pair branch
-    pair = None
-    single = None
-    for n in ast.walk(pc.node):
-        if isinstance(n, ast.If):
-            t = unparse(n.test)
-            if t == "char == %r and next_char == %r" % (Q, Q) or t == 'char == "%s" and next_char == "%s"' % (Q, Q):
-                pair = n
-            if isinstance(n.test, ast.BoolOp) and isinstance(n.test.op, ast.And) and len(n.test.values) == 2 and all(
-                    isinstance(v, ast.Compare) and isinstance(v.comparators[0], ast.Constant) and v.comparators[0].value == Q for v in n.test.values):
-                pair = n
-    if pair is None:
-        R.violation("common._path_components::doubled quote", pc.where(), "no branch recognises the doubled quote (quote followed by quote) inside a name")
+    splitting = [(f, n) for f in region for n in ast.walk(f.node) if isinstance(n, ast.Call) and isinstance(n.func, ast.Attribute)
+                 and n.func.attr in ("split", "rsplit", "partition", "rpartition", "findall", "finditer", "match", "fullmatch", "search")]
+    pairs = [(f, n) for f in region for n in ast.walk(f.node) if isinstance(n, ast.Call) and (call_name(n) or "").split(".")[-1] in ("zip_longest", "zip", "pairwise")]
+    key = "common._path_components::character-pair scanner"
+    if splitting:
+        f, n = splitting[0]
+        R.violation(key, f.where(n), "the decoder is not a character scanner: it takes the path apart with `%s`: a quote next to a slash inside a name is then taken "
+                    "for a component boundary" % unparse(n)[:60])
+    elif pairs:
+        R.ok(key, pairs[0][0].where(pairs[0][1]), "scans (char, next_char) pairs")
     else:
-        body = " ".join(unparse(s) for s in pair.body)
-        appends = [s for s in pair.body if isinstance(s, ast.AugAssign) and isinstance(s.value, ast.Constant) and s.value.value == Q]
-        consumes = [s for s in pair.body for c in ast.walk(s) if isinstance(c, ast.Call) and call_name(c) == "next"]
-        R.check(len(appends) == 1, "common._path_components::doubled quote yields one quote", pc.where(pair), "appends one quote character",
-                "a doubled quote does not decode to exactly one quote character (`%s`)" % body)
-        R.check(len(consumes) == 1, "common._path_components::second quote consumed", pc.where(pair), "next(chars) skips the second quote",
-                "the second quote of a doubled quote is not consumed: it would end the component")
-        # the single-quote (end of component) test comes after the pair test
-        nxt = pair.orelse[0] if len(pair.orelse) == 1 and isinstance(pair.orelse[0], ast.If) else None
-        ok = nxt is not None and unparse(nxt.test) in ("char == %r" % Q, 'char == "%s"' % Q) and any(isinstance(x, ast.Yield) for s in nxt.body for x in ast.walk(s))
-        R.check(ok, "common._path_components::closing quote after the pair test", pc.where(pair), "a single quote ends the component and yields it",
-                "the end-of-component test does not follow the doubled-quote test")
-    # separator handling
-    R.check(("char != %r" % S) in src or ('char != "%s"' % S) in src, "common._path_components::separator required", pc.where(),
-            "each component must start with the separator", "separator check missing")
+        R.undecided(key, pc.where(), "neither a pair scanner nor a splitting decoder recognised")
+    # statements that put a literal quote into the name / that end a component, with the conditions under which they run
+    QC = ("const", Q)
+    emit, finish = [], []
+    for f in region:
+        sy = Sym(prog, f, None, inline=False)
+        for st in walk_body(f.node):
+            lit = None
+            if isinstance(st, ast.AugAssign) and isinstance(st.op, ast.Add) and isinstance(st.value, ast.Constant) and isinstance(st.value.value, str):
+                lit = st.value.value
+            elif isinstance(st, ast.Expr) and isinstance(st.value, ast.Call) and isinstance(st.value.func, ast.Attribute) and st.value.func.attr in ("append", "extend", "write") \
+                    and st.value.args and isinstance(st.value.args[0], ast.Constant) and isinstance(st.value.args[0].value, str):
+                lit = st.value.args[0].value
+            if lit is not None and Q in lit:
+                _env, guards = sy.env_at(st)
+                emit.append((f, st, lit, guards))
+            val = None
+            if isinstance(st, ast.Expr) and isinstance(st.value, ast.Yield):
+                val = st.value.value
+            elif isinstance(st, ast.Return) and st.value is not None and f is not pc:
+                val = st.value
+            if val is not None and isinstance(val, ast.Call) and isinstance(val.func, ast.Attribute) and val.func.attr == "join":
+                _env, guards = sy.env_at(st)
+                finish.append((f, st, guards))
+
+    def operands(guards):
+        """the two things compared with the quote: (current, lookahead)"""
+        ops = []
+        for g in guards:
+            for x, b in find(g, ("cmp", W("op"), W("a"), QC)):
+                if b["op"] in ("==", "!=") and b["a"] not in ops:
+                    ops.append(b["a"])
+        cur = [o for o in ops if o[0] == "item" and o[2] == 0]
+        nxt = [o for o in ops if o[0] == "item" and o[2] == 1]
+        return (cur[0] if cur else None), (nxt[0] if nxt else None)
+
+    def runs(guards, cur, nxt, vcur, vnxt):
+        def orc(c):
+            if c == ("cmp", "==", cur, QC):
+                return vcur
+            if nxt is not None and c == ("cmp", "==", nxt, QC):
+                return vnxt
+            return None
+        vals = [eval_cond(g, orc) for g in guards]
+        if any(v is False for v in vals):
+            return False
+        return True if all(v is True for v in vals) else None
+    key = "common._path_components::doubled quote yields one quote"
+    if not emit:
+        R.undecided("common._path_components::doubled quote", pc.where(), "no statement that emits a literal quote into the name was recognised")
+    for f, st, lit, guards in emit:
+        cur, nxt = operands(guards)
+        if cur is None or nxt is None:
+            R.violation("common._path_components::doubled quote", f.where(st), "a quote is emitted into the name without testing that both the current and the "
+                        "next character are quotes (conditions: %s)" % "; ".join(show(g) for g in guards)[:200])
+            continue
+        both = runs(guards, cur, nxt, True, True)
+        single = runs(guards, cur, nxt, True, False)
+        other = runs(guards, cur, nxt, False, True)
+        R.check(both is not False and single is False and other is False, "common._path_components::doubled quote", f.where(st),
+                "emitted exactly when current and next character are quotes",
+                "the quote is emitted under the wrong condition (runs for quote+quote: %s, quote+other: %s, other+quote: %s)" % (both, single, other))
+        R.check(lit == Q, key, f.where(st), "appends one quote character", "a doubled quote does not decode to exactly one quote character (emits %r)" % lit)
+        # the second quote is consumed in the same block
+        block = _enclosing_block(f, st)
+        consumes = [c for s2 in block for c in ast.walk(s2) if isinstance(c, ast.Call) and call_name(c) == "next"]
+        R.check(len(consumes) == 1, "common._path_components::second quote consumed", f.where(st), "next(...) skips the second quote",
+                "the second quote of a doubled quote is not consumed exactly once (%d next() calls in the branch): it would end the component" % len(consumes))
+    key = "common._path_components::closing quote after the pair test"
+    decided = False
+    for f, st, guards in finish:
+        cur, nxt = operands(guards)
+        if cur is None:
+            continue
+        decided = True
+        both = runs(guards, cur, nxt, True, True) if nxt is not None else True
+        single = runs(guards, cur, nxt, True, False)
+        plain = runs(guards, cur, nxt, False, False)
+        R.check(both is False and single is not False and plain is False, key, f.where(st), "a single quote ends the component and yields it",
+                "the component is ended under the wrong condition (runs for quote+quote: %s, quote+other: %s, other: %s): the end-of-component test must "
+                "not fire on the first quote of a doubled quote" % (both, single, plain))
+    if not decided:
+        R.undecided(key, pc.where(), "no statement that ends a component under a quote test was recognised")
+    # separator handling: some comparison of a scanned character with the separator guards a raise
+    sep = False
+    for f in region:
+        cfg = ctx.cfg(f)
+        sy = Sym(prog, f, None, inline=False)
+        for t in cfg.where(lambda n: n.kind == "test"):
+            env, _g = sy.env_at(t.ast)
+            c = sy.expr(t.ast, env)
+            if find(c, ("cmp", "!=", W(), ("const", S))) and any(m.kind == "raisestmt" for m, k in t.succ if k == "true"):
+                sep = True
+            if find(c, ("cmp", "==", W(), ("const", S))) and any(m.kind == "raisestmt" for m, k in t.succ if k == "false"):
+                sep = True
+    R.check(sep, "common._path_components::separator required", pc.where(), "each component must start with the separator", "separator check missing")
+
+
+def _in_raise(f, node):
+    for st in ast.walk(f.node):
+        if isinstance(st, ast.Raise) and any(x is node for x in ast.walk(st)):
+            return True
+    return False
+
+
+def _enclosing_block(f, st):
+    """the statement list that directly contains st"""
+    for n in ast.walk(f.node):
+        for field in ("body", "orelse", "finalbody"):
+            blk = getattr(n, field, None)
+            if isinstance(blk, list) and any(x is st for x in blk):
+                return blk
+    return [st]
 
 
 NAME_MAPS = {"self._groups", "self._channels", "group_properties", "group_channels"}
@@ -206,47 +354,41 @@ def _key_kind(e):
 
 @rule("PT4", "maps keyed by names are indexed with names, maps keyed by path strings with path strings", floor=15)
 def pt4(ctx, R):
+    """Decided by the string-kind inference of sa/kinds.py: object names (NAME) and encoded object paths (PATH) are inferred
+    for every local, parameter, field and container key from the flows of the program, seeded only by the encoder and the
+    decoder of common.py.  Using a NAME where a PATH flows (or the reverse) - as a dictionary key, a set element, an
+    argument, a comparison operand - is a conflict, reported with the chain of flows connecting the two seeds."""
+    from .kinds import NAME, PATH, OBJ
     prog = ctx.prog
+    K = ctx.kinds()
+    for c in K.conflicts:
+        ka, kb = K.kind(c.a), K.kind(c.b)
+        chain = K.explain(c.a, c.b)
+        key = "%s::%s" % (c.where.split(":")[0], c.why[:90])
+        R.violation(key, c.where, "a %s meets a %s here (%s): a channel named like a path, or two objects whose names differ only in quoting, "
+                    "would collide or be missed. Flow: %s" % (ka, kb, c.why, " <- ".join(chain)[:700]), path=chain)
     n = 0
-    for fi in sorted(prog.functions.values(), key=lambda f: f.qual):
-        if fi.module.name in ("export.pandas_export",):
-            continue
-        for x in walk_body(fi.node):
-            base = key = None
-            if isinstance(x, ast.Subscript) and not isinstance(x.slice, ast.Slice):
-                base, key = dotted(x.value), x.slice
-            elif isinstance(x, ast.Call) and isinstance(x.func, ast.Attribute) and x.func.attr in ("get", "pop", "setdefault") and x.args:
-                base, key = dotted(x.func.value), x.args[0]
-            elif isinstance(x, ast.Compare) and len(x.ops) == 1 and isinstance(x.ops[0], (ast.In, ast.NotIn)):
-                base, key = dotted(x.comparators[0]), x.left
-            if base is None:
-                continue
-            want = "name" if base in NAME_MAPS else ("path" if base in PATH_MAPS else None)
-            if want is None:
-                continue
-            if fi.cls is not None and fi.cls.name == "TdmsGroup" and base == "self._channels":
-                want = "name"
-            got = _key_kind(key)
-            if got is None:
-                continue
+    for fi, node, k, cont, txt in K.accesses:
+        kk = K.kind(k)
+        if kk in (NAME, PATH):
             n += 1
-            k = "%s::%s[%s]" % (fi.qual, base, unparse(key)[:30])
-            R.check(got == want, k, fi.where(x), "%s-keyed map indexed with a %s" % (want, got),
-                    "`%s` is keyed by %ss but indexed with `%s`, a %s: a channel named like a path (or two objects whose names differ only in "
-                    "quoting) would collide or be missed" % (base, want, unparse(key), got))
+            R.ok("%s::%s" % (fi.qual, txt[:50]), fi.where(node), "%s-keyed container used with a %s" % (kk, kk))
     if n < 15:
-        raise AnchorMissing("classified map accesses (found %d)" % n)
-    # the group/channel dictionaries are built from names
-    g = prog.func("tdms.TdmsGroup.__init__")
-    R.check("{c.name: c for c in channels}" in unparse(g.node), "tdms.TdmsGroup.__init__::channels by name", g.where(), "channels keyed by channel name",
-            "channels are not keyed by their name")
-    ws = prog.func("writer.TdmsWriter.write_segment")
-    t = unparse(ws.node)
-    for nm, want in (("groups_included", "p[0].group"), ("groups_required", "p[0].group")):
-        ds = [x for x in walk_body(ws.node) if isinstance(x, ast.Assign) and dotted(x.targets[0]) == nm]
-        ok = bool(ds) and want + " for" in unparse(ds[0].value)
-        R.check(ok, "writer.TdmsWriter.write_segment::%s" % nm, ws.where(), "set of group NAMES", "`%s` is built from `%s`: written/required groups are "
-                "no longer tracked by name, the names handed to GroupObject/ObjectPath would be path strings" % (nm, unparse(ds[0].value) if ds else None))
-    add = [c for c in ast.walk(ws.node) if isinstance(c, ast.Call) and dotted(c.func) == "GroupObject"]
-    R.check(bool(add) and all(len(c.args) == 1 and isinstance(c.args[0], ast.Name) for c in add), "writer.TdmsWriter.write_segment::implicit groups", ws.where(),
-            "missing groups are created from their names", "implicit group objects are created from `%s`" % (unparse(add[0].args[0]) if add and add[0].args else None))
+        raise AnchorMissing("container accesses whose key kind is inferred (found %d)" % n)
+    # the public API: what callers give and get
+    api = [("tdms.TdmsFile.__getitem__", "param", 1, NAME), ("tdms.TdmsGroup.__getitem__", "param", 1, NAME),
+           ("tdms.TdmsFile.__contains__", "param", 1, NAME), ("tdms.TdmsGroup.__contains__", "param", 1, NAME),
+           ("tdms.TdmsGroup.name", "ret", None, NAME), ("tdms.TdmsChannel.name", "ret", None, NAME),
+           ("tdms.TdmsGroup.path", "ret", None, PATH), ("tdms.TdmsChannel.path", "ret", None, PATH),
+           ("writer.GroupObject.path", "ret", None, PATH), ("writer.ChannelObject.path", "ret", None, PATH), ("writer.RootObject.path", "ret", None, PATH)]
+    for q, what, i, want in api:
+        f = prog.func(q)
+        node = K.names.get(("v", q, f.params[i])) if what == "param" else K.names.get(("r", q))
+        got = K.kind(node) if node is not None else None
+        key = "%s::%s" % (q, "key given by the caller" if what == "param" else "result")
+        if got is None:
+            R.undecided(key, f.where(), "kind not inferred")
+        else:
+            R.check(got == want, key, f.where(), "is a %s" % got, "is a %s, expected a %s" % (got, want))
+    R.note("kind inference: %d functions analysed, %d nodes, %d container accesses (%d with inferred kind), %d conflicts" % (
+        len(K.analysed), K.n_nodes, len(K.accesses), n, len(K.conflicts)))
